@@ -22,6 +22,8 @@ CLAIMED = {
              note="kernel via numba .py_func (compiled code outside); <= 4 sites x 3 edges with symbolic coordinates; Polyak iteration on T2/F5; loop with <= 3 iterations and opaque physics; convergence itself not claimed", ref="5/C13"),
  "C17": dict(text="From psi=1, mu=0, A=0, epsilon=1 one step of the real __init__/update/adaptive_euler_step/solve_for_psi_squared/solve_for_observables (and, with screening, the real Polyak iteration + kernel source) on meshes with symbolic weights returns exactly psi'=1, mu'=0, J_s=J_n=0, A_induced=0, records max|d|psi|^2| = 0 and moves the adaptive step to dt_max; post-state = pre-state, so stationarity at every step follows by induction.",
              note="devices bar0, bar2 (unpinned unbiased terminals), holed, tee3; gamma symbolic without screening / enumerated with screening; LU contract with zero-rhs clause; exact reals (ulp-level noise amplification on fine meshes is outside the claim)", ref="5/C17"),
+ "C16": dict(text="The real Parameter/CompositeParameter classes are executed on every expression tree within the bound (5 operators, leaves 2-D / 3-D / time-dependent parameter, int, float, both operand orders) with uninterpreted leaf functions and symbolic points and time; value = op(values of the operands) at scalar and array arguments (independent recursive oracle), time dependence = OR of operands, structural equality, cache clearing empties every cache, pickle round trip preserves equality, time dependence and values.",
+             note="depth <= 2 (quick) / sampled depth 3 (thorough), inductive per node; ** with symbolic exponent uninterpreted; sha1 cache key modelled by term identity; trees that are identically zero in a divisor are excluded; mixed 2-D/3-D leaves are not evaluated (no common signature)", ref="5/C16"),
 }
 NA = {
 }
